@@ -1,6 +1,8 @@
 #!/usr/bin/env python3
 """Regenerate MANIFEST.json from tools/manifest_src.json (claimed properties) + properties.jsonl."""
-import json, os
+import json, os, sys
+sys.path.insert(0, os.path.join(os.path.dirname(os.path.dirname(os.path.abspath(__file__))), 'harness'))
+from core import lean as _lean
 here = os.path.dirname(os.path.dirname(os.path.abspath(__file__)))
 src = json.load(open(os.path.join(here, 'tools', 'manifest_src.json')))
 props = [json.loads(l) for l in open(os.path.join(here, 'properties.jsonl'))]
@@ -16,7 +18,7 @@ for p in props:
             "evidence_file": "evidence/%s.json" % pid,
             "replay_cmd_template": "/venv/bin/python harness/vcheck.py %s --replay {path}" % pid,
             "engine": "lean4+correspondence",
-            "level_claimed": {"category": "proof", "text": c['text'], "design_ref": "§" + pid},
+            "level_claimed": {"category": "proof", "text": c['text'] + " [%d property theorems in lean/CobaVerif/Props/%s.lean at the time of writing, indexed in DESIGN §19; later extensions in notes/%s.md]" % (len(_lean.theorems_in('CobaVerif.Props.' + pid)), pid, pid), "design_ref": "§" + pid},
             "level_note": c['note'],
             "technique": c.get('technique', "Lean 4 theorems about a hand-written executable model + differential correspondence check of the model against /repo + direct property monitor"),
         })
